@@ -222,3 +222,68 @@ func TestFilteredLookupFindsEveryKeyWhateverTheFilterBase(t *testing.T) {
 		})
 	}
 }
+
+
+// obligation table.NewReader:post(C13:data-area-ends-where-the-first-meta-block-starts)
+// Approximate offsets reported by a table reader must never decrease as the
+// probe key grows, whatever the filter setting of the table is.
+func TestApproximateOffsetsNeverDecreaseWithAFilter(t *testing.T) {
+	for _, flt := range []filter.Filter{nil, filter.NewBloomFilter(10)} {
+		name := "nofilter"
+		if flt != nil {
+			name = "bloom"
+		}
+		t.Run(name, func(t *testing.T) {
+			o := &opt.Options{
+				BlockSize:            256,
+				BlockRestartInterval: 4,
+				Compression:          opt.NoCompression,
+				Filter:               flt,
+			}
+			buf := &bytes.Buffer{}
+			tw := table.NewWriter(buf, o, nil, 0)
+			var keys [][]byte
+			for i := 0; i < 400; i++ {
+				k := []byte(fmt.Sprintf("key%05d", i*2))
+				keys = append(keys, k)
+				if err := tw.Append(k, bytes.Repeat([]byte{'v'}, 40)); err != nil {
+					t.Fatal(err)
+				}
+			}
+			if err := tw.Close(); err != nil {
+				t.Fatal(err)
+			}
+			tr, err := table.NewReader(bytes.NewReader(buf.Bytes()), int64(buf.Len()), storage.FileDesc{}, nil, nil, o)
+			if err != nil {
+				t.Fatal(err)
+			}
+			defer tr.Release()
+
+			// Probe: before first, every key, between keys, and past the last key.
+			probes := [][]byte{[]byte(""), []byte("a")}
+			for i := 0; i < 400; i++ {
+				probes = append(probes, keys[i], []byte(fmt.Sprintf("key%05d", i*2+1)))
+			}
+			probes = append(probes, []byte("key99999"), []byte("zzz"), []byte{0xff, 0xff})
+
+			var prev int64
+			var prevKey []byte
+			for _, p := range probes {
+				off, err := tr.OffsetOf(p)
+				if err != nil {
+					t.Fatalf("OffsetOf(%q): %v", p, err)
+				}
+				if off < prev {
+					t.Fatalf("approximate offset decreased: OffsetOf(%q)=%d but OffsetOf(%q)=%d", prevKey, prev, p, off)
+				}
+				if off > int64(buf.Len()) {
+					t.Fatalf("OffsetOf(%q)=%d exceeds table size %d", p, off, buf.Len())
+				}
+				prev, prevKey = off, p
+			}
+			if prev == 0 {
+				t.Fatalf("offset past the last key is 0 for a %d-byte table", buf.Len())
+			}
+		})
+	}
+}
